@@ -15,6 +15,18 @@ Theorem C18_init_fails_iff : forall c ps fo,
 Proof. exact init_fails_iff. Qed.
 Print Assumptions C18_init_fails_iff.
 
+(* In particular a malformed pattern (it matches no file) is an error whatever failOn says; before the
+   repair it was logged and skipped even under failOn=all. *)
+Theorem C18_bad_pattern_always_error : forall c ps fo,
+  parse_fail_on (c_fail_on c) (c_legacy c) = Some fo -> String.eqb (c_rules c) "" = false ->
+  In BadPattern ps -> exists e, init c ps = InitErr e.
+Proof. exact bad_pattern_always_error. Qed.
+Print Assumptions C18_bad_pattern_always_error.
+Theorem C18_bad_pattern_skipped_prefix_refuted :
+  exists c ps, In BadPattern ps /\ c_fail_on c = "all" /\ exists st, init_prefix c ps = PInitOk st.
+Proof. exact bad_pattern_skipped_prefix_refuted. Qed.
+Print Assumptions C18_bad_pattern_skipped_prefix_refuted.
+
 (* Otherwise faulty files are skipped and exactly the enabled groups of the remaining files apply. *)
 Theorem C18_survivors_apply : forall c ps st, init c ps = InitOk st ->
   active st = filter (group_enabled c) (valid_groups ps) /\ skipped st = invalid_names c (all_files ps).
